@@ -4,7 +4,7 @@ CONSTANTS
   OsActor = {3,4,9}
   SrcH = {1,2,3,4}
   TokH = {1,2}
-  Cb = {1,2,3,4}
+  Cb = {1,2,3,4,5,6,7,8,9,10,11,12}
   MaxState = 6
   Deviations = {"DtorSkipsWaitAmongOsThreads"}
 INVARIANT NotAccepted
